@@ -109,6 +109,9 @@ class Run:
         allobs = obs + [o for v in canary_obs.values() for o in v]
         results = solve.solve_all(allobs, timeout=timeout)
         bymap = {id(r.ob): r for r in results}
+        if os.environ.get("PYVC_TIMES"):
+            for r in sorted(results, key=lambda r: -r.secs)[:int(os.environ["PYVC_TIMES"])]:
+                print("  %6.1fs %-8s %s %s" % (r.secs, r.status, r.ob.name[:150], r.attempts))
         # canaries
         for cq, fobs in canary_obs.items():
             self.ev["canaries"] += 1
